@@ -170,3 +170,9 @@ def extra_checks(res, tier, seed, known, log):
             path = runner.write_replay("C20", "ErrorRanges", {"property": "C20", "obligation": "bounded:ErrorRanges",
                                                               "failing_input": js["failures"][0], "count": js["nfailures"], "all": js["failures"]})
             res.violations.append({"replay": path})
+    # the report side (histogram_rows and the JSON assembled from it) is a generator over dicts of dicts with float columns:
+    # runtime contract "the histogram in the report equals the tally of the applied matches" as the bounded stand-in
+    runner.runtime_standin(res, "C20", "cmods", "report_histogram", seed, 2000 if tier == "quick" else 40000, 60 if tier == "quick" else 600, prefix="C20:",
+                           label="report: histogram by removed length and error count equals the tally of the applied matches (bounded)")
+    runner.runtime_standin(res, "C20", "cmods", "revcomp", seed, 1500 if tier == "quick" else 20000, 60 if tier == "quick" else 300, prefix="C20:",
+                           label="--revcomp: matches in the per-adapter statistics equal the applied matches (bounded)")
